@@ -351,6 +351,12 @@ func genRenderCase(r *rng, hostile bool) (*renderCase, map[string]int) {
 	case 1:
 		g.ap, g.tp = "data-x-", "x_"
 		cfg["attrPrefix"], cfg["tagPrefix"] = g.ap, g.tp
+	case 2:
+		// prefixes made of the letters directive names start with (a prefix is a prefix, not a set of characters),
+		// or that are themselves the beginning / the whole of a directive name
+		g.ap = r.pick([]string{"r:", "wi:", "i-", "e-", "t:", "re:", "el-", "if:", "ra-", "w:", "text-"})
+		g.tp = r.pick([]string{"b:", "bl-", "t-", "block-"})
+		cfg["attrPrefix"], cfg["tagPrefix"] = g.ap, g.tp
 	}
 	nfr := r.n(3)
 	for i := 0; i < nfr; i++ {
